@@ -478,14 +478,13 @@ def plan(tier):
         ]
     return [
         ("full", ["fresh:2x2"], 2, True, None),
-        ("medium", ["fresh:1x1", "fresh:2x3", "fresh:3x2", "fixture:test-1.numbers", "fixture:test-save-1.numbers", "fixture:issue-3.numbers"], 2, True, None),
+        ("medium", ["fresh:1x1", "fresh:2x3", "fixture:test-1.numbers", "fixture:issue-3.numbers"], 2, True, None),
         ("medium", ["fresh:2x2"], 3, False, None),
         ("reduced", ["two:2x2"], 2, True, None),
-        ("reduced", ["two:2x2"], 3, False, None),
-        ("reduced", ["fresh:2x2"], 3, True, None),
-        ("mini", ["fresh:2x2"], 4, True, None),
+        ("reduced", ["two:2x2", "fresh:2x2"], 3, False, None),
+        ("mini", ["fresh:2x2"], 3, True, None),
+        ("mini", ["fresh:1x1"], 4, True, None),
         ("reduced", ["tile:255x2", "tile:256x2", "tile:257x2"], 1, True, None),
-        ("mini", ["tile:256x2"], 2, True, None),
     ]
 
 
